@@ -12,6 +12,9 @@ Everything the oracle needs is re-derived from S, M, G with ``vf.oracle`` only:
   mass / centre of mass    m_i = G_i[3,3],  r_i = vee(upper-right block of G_i) / m_i   (G = [[Ic - m r^r^, m r^],[-m r^, m 1]])
   potential energy         P(q)    = - sum_i m_i g . (T_i(q) r_i)
   tip body Jacobian        J_tip   = Ad(T_(n+1)^-1) J_s   (MR expresses Ftip in the end-effector frame {n+1})
+  velocity-product term    qd.c = 1/2 qd^T (sum_i dM/dq_i qd_i) qd   and   c_k = sum_ij (dM_kj/dq_i - 1/2 dM_ij/dq_k) qd_i qd_j
+                           with dM/dq_i by Richardson differences of the ORACLE's M (never of the library's)
+  energy                   RK4 over the LIBRARY's ForwardDynamics (tau = 0, F = 0), E = 1/2 qd^T M(q) qd + P(q) from the oracle
 
 Arm level (``kinematics.Arm``).  A case is {"arm": spec of vf.arms (6R arm of the suite or a random chain,
 identity or random base), "L": nx4x4 link frames in BASE coordinates or None (= the suite's), "G": nx6x6 or
@@ -42,7 +45,8 @@ RULE = ("MR level: random open chains of 1..7 unit-axis screws (axis-aligned / p
         "1e-3 s over the library's ForwardDynamics.  Arm level: the suite's 6R arm (suite inertias or random SPD ones "
         "through setMassProperties) and random 1..7-joint arms (6 joints over-weighted) at the identity or a random "
         "base with random link frames / inertias handed through setOrigins + setMassProperties; wrench as Wrench "
-        "object, flat array (as the suite does) or omitted; gravity given or defaulted.  Non-trivial: n >= 2 and a "
+        "object, flat array (as the suite does) or omitted; gravity given or defaulted.  The velocity-product term is "
+        "checked against the passivity identity and against the Christoffel symbols of the oracle's M.  Non-trivial: n >= 2 and a "
         "screw axis that is not a coordinate axis and (where velocities enter) |qd| >= 0.1; distinct by digest.")
 ASSUMPTIONS = [
     "oracle: vf.oracle only (long-double Rodrigues exponentials, adjoints, space/body Jacobians, Richardson central "
@@ -438,6 +442,7 @@ def c_passivity(case, ctx):
     rhs = 0.5 * float(qd @ Mdot @ qd)
     sc = norm1(qd * c) + norm1(qd) ** 3 * amax(mass_oracle(S, homes, Gl, q))
     ctx.note("qd.c", lhs)
+    ctx.note("half qd^T Mdot qd", rhs)
     tol = band_tol(q, FDTOL, sc, 6.0 * Reach(S, homes, Gl, q).Mb * norm1(qd) ** 3 + norm1(qd * c)) + UNDERFLOW
     if not math.isfinite(lhs) or abs(lhs - rhs) > tol:
         raise Violation("qd.c = %.12g but 1/2 qd^T Mdot qd = %.12g (diff %.3g > tol %.3g)" % (lhs, rhs, abs(lhs - rhs), tol))
@@ -544,11 +549,11 @@ def c_energy(case, ctx):
     if d1 <= tol:
         return
     # not accepted at 200 x 1e-3: an integration error shrinks 16x per halving, a non-conservative field does not
-    d2, sc2, _, _ = _rk4_energy(S, Ml, Gl, homes, g, q, qd, 400, T / 400)
+    d2, _, _, _ = _rk4_energy(S, Ml, Gl, homes, g, q, qd, 400, T / 400)
     if d2 <= tol:
         ctx.label("accepted after step halving")
         return
-    d3, sc3, _, _ = _rk4_energy(S, Ml, Gl, homes, g, q, qd, 800, T / 800)
+    d3, _, _, _ = _rk4_energy(S, Ml, Gl, homes, g, q, qd, 800, T / 800)
     if d3 <= tol:
         ctx.label("accepted after step halving")
         return
@@ -723,7 +728,6 @@ def _arm_fd(case, ctx, which):
     q, qd, qdd, g, F = arm_state(case)
     tau_in = np.asarray(case["tau"], dtype=float)
     t = Terms(rig.S, rig.Mlist, rig.Glist, rig.homes, q, qd, g, F)
-    lam = t.lam_min()
 
     def fd(tau):
         if which == "E":
@@ -897,7 +901,7 @@ CLAUSES = [
     Clause("coriolis_passivity", c_passivity, mr_cases(keys=("qd",)), 160, 16 * 500),
     Clause("velocity_term_is_christoffel", c_christoffel, mr_cases(keys=("qd",)), 120, 16 * 400),
     Clause("gravity_is_potential_gradient", c_gravity, mr_cases(keys=("g",)), 250, 16 * 1000),
-    Clause("energy_conserved", c_energy, energy_cases(), 32, 16 * 50, shrink_quick=False),
+    Clause("energy_conserved", c_energy, energy_cases(), 24, 16 * 50, shrink_quick=False),
     Clause("arm_id_implementations_agree", c_arm_id_agree, arm_cases(), 160, 16 * 600),
     Clause("arm_id_emr_agrees", c_arm_id_emr, arm_cases(), 120, 16 * 500),
     Clause("arm_mass_matrix", c_arm_mass, arm_cases(), 160, 16 * 600),
